@@ -466,6 +466,13 @@ func c08cases(seed int64, i int, keys *gen.KeyRing) []c08case {
 		}
 	default:
 		key = cose.Key{Type: cose.KeyType(70 + r.Intn(5)), Params: map[any]any{}}
+		if i%5 == 0 {
+			// an EC2 key with a compressed point (y given as a bool, RFC 9053 section 7.1.1)
+			ci := r.Intn(3)
+			ec := keys.Keys[ci].Priv.(*ecdsa.PrivateKey) // ES256/P-256, ES384/P-384, ES512/P-521
+			size := (ec.Curve.Params().BitSize + 7) / 8
+			key = cose.Key{Type: cose.KeyTypeEC2, Params: map[any]any{int64(-1): cose.Curve(1 + ci), int64(-2): ec.X.FillBytes(make([]byte, size)), int64(-3): r.Bool()}}
+		}
 	}
 	if key.Params == nil {
 		key.Params = map[any]any{}
